@@ -36,7 +36,7 @@ ASSUMPTIONS = [
     "a watchdog expiry alone is 'inconclusive', never a violation",
 ]
 REQUIRED_CLASSES = ["target=bf3", "target=bec2", "target=bf2", "target=cfgid", "target=pfid2", "outcome=return", "outcome=format-error", "outcome=value-error",
-                    "dec=none", "dec=public-only", "dec=private", "dec=wrong-key", "dec=correct", "mut=field-edit-remac", "mut=header-tlv", "mut=bf2-instr", "beyond-frontend"]
+                    "dec=none", "dec=public-only", "dec=private", "dec=wrong-key", "dec=correct", "mut=field-edit-remac", "mut=header-tlv", "mut=bf2-instr", "beyond-frontend", "route=path"]
 
 from bec2format.error import FormatError  # noqa: E402
 
@@ -140,12 +140,21 @@ def bucket_of(exc):
 
 def call_target(target, text, opts):
     """Run one parsing entry point; -> ('return'|'format-error'|'value-error', None) or ('other', exception)"""
+    def src():
+        # stream or file path (the path route goes through open() with universal newlines and the locale/UTF-8 decoder)
+        if not opts.get("path"):
+            return io.StringIO(text)
+        try:
+            return sut.source_for(text, "path")
+        except (UnicodeEncodeError, ValueError):
+            return io.StringIO(text)
+
     if target == "bf3":
-        fn = lambda: sut.Bf3File.read_file(io.StringIO(text), check_cmac=opts.get("cmac", True), session_key=opts.get("key") or bytes(16))  # noqa
+        fn = lambda: sut.Bf3File.read_file(src(), check_cmac=opts.get("cmac", True), session_key=opts.get("key") or bytes(16))  # noqa
     elif target == "bec2":
-        fn = lambda: sut.Bec2File.read_file(io.StringIO(text), opts["decryptors"], check_cmac=opts.get("cmac", True))  # noqa
+        fn = lambda: sut.Bec2File.read_file(src(), opts["decryptors"], check_cmac=opts.get("cmac", True))  # noqa
     elif target == "bf2":
-        fn = lambda: sut.Bf3File.bf2_import(io.StringIO(text), enforce_bf3_compatibility=opts.get("enforce", True))  # noqa
+        fn = lambda: sut.Bf3File.bf2_import(src(), enforce_bf3_compatibility=opts.get("enforce", True))  # noqa
     elif target == "cfgid":
         fn = lambda: sut.bec2format.ConfigId.create_from_str(text)  # noqa
     elif target == "pfid2":
@@ -374,6 +383,7 @@ def build_input(case):
         text = ""
         opts["raw"] = case["raw"]
         info["beyond"] = len(case["raw"]) >= 2 and case["raw"][0] == 1
+    opts["path"] = bool(case.get("path", len(case.get("muts", [])) % 2 == 1)) and t in ("bf3", "bec2", "bf2")
     return text, opts, info
 
 
@@ -391,6 +401,7 @@ def check(case, rec):
         rec.cls("mut=bf2-instr")
     for m in case.get("muts", []):
         rec.cls("mut=" + m[0])
+    rec.cls("route=path" if opts.get("path") else "route=stream")
     if info["beyond"]:
         rec.cls("beyond-frontend")
         rec.nt((t, text, case.get("dec"), case.get("cmac"), case.get("raw")))
